@@ -13,7 +13,7 @@ open Percival.Proofs.EventsC04 (TmOk TmView)
 theorem rel_clock {C : TQContract} {m : C05.M} {s : State} (r : Rel C m s) (a : Nat) :
     Rel C { m with clock := m.clock + a } { s with clock := s.clock + a } := by
   refine ⟨by show m.clock + a = s.clock + a; rw [r.clock], r.intr, r.imm, r.immIds, r.net,
-    ⟨r.tm.ok, r.tm.ids, r.tm.iff, ?_⟩, r.disjIN, r.disjIT, r.disjNT⟩
+    ⟨r.tm.ok, r.tm.ids, r.tm.iff, ?_⟩, r.disjIN, r.disjIT, r.disjNT, r.done⟩
   intro t ht
   have := r.tm.dl t ht
   show t.deadline ≤ m.clock + a + t.usec
@@ -21,12 +21,12 @@ theorem rel_clock {C : TQContract} {m : C05.M} {s : State} (r : Rel C m s) (a : 
 
 theorem rel_intr {C : TQContract} {m : C05.M} {s : State} (r : Rel C m s) :
     Rel C { m with intr := true } { s with intr := true } :=
-  ⟨r.clock, rfl, r.imm, r.immIds, r.net, r.tm, r.disjIN, r.disjIT, r.disjNT⟩
+  ⟨r.clock, rfl, r.imm, r.immIds, r.net, r.tm, r.disjIN, r.disjIT, r.disjNT, r.done⟩
 
 theorem rel_rescan {C : TQContract} {m : C05.M} {s : State} (r : Rel C m s) :
     Rel C m { s with net := { s.net with scan := topScan s.net } } :=
   ⟨r.clock, r.intr, r.imm, r.immIds, ⟨rescan_inv _ r.net.inv.inv0, r.net.ids, r.net.iff, r.net.ready⟩, r.tm,
-    r.disjIN, r.disjIT, r.disjNT⟩
+    r.disjIN, r.disjIT, r.disjNT, r.done⟩
 
 /-- the monitor's new socket list after an answered poll -/
 def pollNets (fds : List PollEntry) (nets : List C05.Net) : List C05.Net :=
@@ -94,7 +94,7 @@ theorem rel_regTimer {C : TQContract} {m : C05.M} {s : State} (r : Rel C m s) (i
   obtain ⟨hok, hview⟩ := EventsC04.tm_add r.tm.ok s.clock id usec sec us (not_timer_of_not_live s id hl) hgt
   refine ⟨{ m with tms := ⟨id, usec, m.clock + usec⟩ :: m.tms }, ?_, ?_, Ctl.refl _⟩
   · simp only [C05.step, dropId_of_fresh m id f1 f2 f3]; rfl
-  · refine ⟨r.clock, r.intr, r.imm, r.immIds, r.net, ⟨hok, ?_, ?_, ?_⟩, r.disjIN, ?_, ?_⟩
+  · refine ⟨r.clock, r.intr, r.imm, r.immIds, r.net, ⟨hok, ?_, ?_, ?_⟩, r.disjIN, ?_, ?_, r.done⟩
     · show (List.map (·.id) ((⟨id, usec, m.clock + usec⟩ : C05.Tm) :: m.tms)).Nodup
       simp only [List.map_cons, List.nodup_cons]
       exact ⟨f3, r.tm.ids⟩
@@ -145,7 +145,7 @@ theorem rel_remove_tm {C : TQContract} {m : C05.M} {s : State} (r : Rel C m s) (
   have e2 : m.nets.filter (fun x => x.id != id) = m.nets :=
     filter_id_self m.nets (·.id) id (fun h => r.disjNT id h hin)
   refine ⟨by unfold C05.dropId; rw [e1, e2], ?_⟩
-  refine ⟨r.clock, r.intr, r.imm, r.immIds, r.net, ⟨hok, nodup_filter_ids _ _ _ r.tm.ids, ?_, ?_⟩, r.disjIN, ?_, ?_⟩
+  refine ⟨r.clock, r.intr, r.imm, r.immIds, r.net, ⟨hok, nodup_filter_ids _ _ _ r.tm.ids, ?_, ?_⟩, r.disjIN, ?_, ?_, r.done⟩
   · intro id' us' dl'
     rw [EventsC04.tmView_remove hrecs, ← r.tm.iff, List.mem_filter]
     simp only [bne_iff_ne, ne_eq, and_comm]
@@ -204,7 +204,7 @@ theorem rel_resetTimer {C : TQContract} {m : C05.M} {s : State} (r : Rel C m s) 
       · refine ⟨_, hx, ?_⟩
         have hb : (id' == id) = false := by simp [hne]
         simp [hb]
-  refine ⟨r.clock, r.intr, r.imm, r.immIds, r.net, ⟨hok, ?_, ?_, ?_⟩, r.disjIN, ?_, ?_⟩
+  refine ⟨r.clock, r.intr, r.imm, r.immIds, r.net, ⟨hok, ?_, ?_, ?_⟩, r.disjIN, ?_, ?_, r.done⟩
   · show (List.map (fun x : C05.Tm => x.id) (m.tms.map (fun t : C05.Tm => if t.id == id then { t with deadline := m.clock + t.usec } else t))).Nodup
     rw [List.map_map]
     have : ((fun x : C05.Tm => x.id) ∘ fun t : C05.Tm => if t.id == id then { t with deadline := m.clock + t.usec } else t) = (fun x => x.id) := by
@@ -263,7 +263,7 @@ theorem rel_cb_imm {C : TQContract} {m : C05.M} {s : State} (r : Rel C m s) (j :
   rw [erase_eq_filter_id r.immIds hj] at hq'
   obtain ⟨hdrop, hr⟩ := rel_remove_imm r j.id j.prio q' hj hq'
   refine ⟨{ m with imms := m.imms.filter (fun i => i.id != j.id), fired := m.fired + 1, mustFire := false, looked := false }, ?_,
-    ⟨hr.clock, hr.intr, hr.imm, hr.immIds, hr.net, hr.tm, hr.disjIN, hr.disjIT, hr.disjNT⟩,
+    ⟨hr.clock, hr.intr, hr.imm, hr.immIds, hr.net, hr.tm, hr.disjIN, hr.disjIT, hr.disjNT, hr.done⟩,
     ⟨rfl, rfl, rfl, rfl, rfl, rfl, rfl, rfl, rfl, rfl⟩⟩
   simp only [C05.step, hstop, Option.isSome_none, Bool.false_eq_true, if_false, find_id_imm r.immIds hj, hn, hdrop,
     beq_self_eq_true, if_true]
@@ -306,7 +306,7 @@ theorem rel_cb_net {C : TQContract} {m : C05.M} {s : State} (r : Rel C m s) (n1 
   · simp only [C05.step, hstop, Option.isSome_none, Bool.false_eq_true, if_false, himm, List.find?_nil,
       List.isEmpty_nil, Bool.not_true, hfind, C05.dropId, List.filter_nil, e3]
     rfl
-  · refine ⟨r.clock, r.intr, r.imm, r.immIds, hnet, r.tm, ?_, r.disjIT, ?_⟩
+  · refine ⟨r.clock, r.intr, r.imm, r.immIds, hnet, r.tm, ?_, r.disjIT, ?_, r.done⟩
     · intro id' hid'
       rw [himm] at hid'; simp at hid'
     · intro id' hmem
@@ -339,7 +339,7 @@ theorem rel_cb_timer {C : TQContract} {m : C05.M} {s : State} (r : Rel C m s) (q
     have := hmin u.id u.usec u.deadline ((r.tm.iff _ _ _).mp hu)
     simp only [decide_eq_true_eq]; omega
   refine ⟨{ m with tms := m.tms.filter (fun x => x.id != id), fired := m.fired + 1, mustFire := false, looked := false }, ?_,
-    ⟨hr.clock, hr.intr, hr.imm, hr.immIds, hr.net, hr.tm, hr.disjIN, hr.disjIT, hr.disjNT⟩,
+    ⟨hr.clock, hr.intr, hr.imm, hr.immIds, hr.net, hr.tm, hr.disjIN, hr.disjIT, hr.disjNT, hr.done⟩,
     ⟨rfl, rfl, rfl, rfl, rfl, rfl, rfl, rfl, rfl, rfl⟩⟩
   simp only [C05.step, hstop, Option.isSome_none, Bool.false_eq_true, if_false, himm, List.find?_nil,
     List.isEmpty_nil, Bool.not_true, hnn, hft, hnr, hless, hdrop, hlook, Bool.and_false]
